@@ -42,6 +42,8 @@ def parse_enum_item(s, loc, tok):
         # comments after settings have priority
         if 'comment' in tok['settings']:
             init_dict['comment'] = tok['settings']['comment']
+    if 'comment' not in init_dict and 'comment' in tok:
+        init_dict['comment'] = tok['comment'][0]
     if 'comment' not in init_dict and 'comment_before' in tok:
         comment = '\n'.join(c[0] for c in tok['comment_before'])
         init_dict['comment'] = comment
